@@ -33,7 +33,7 @@ REGIMES = ["cold", "sparse", "half", "dense", "rows"]
 
 
 def _inner_entries():
-    return [n for n, e in POOL.items() if e.kind in ("clf", "both")]
+    return [n for n, e in POOL.items() if e.kind in ("clf", "both") and not e.is_wrapper]
 
 
 def gen_cases(tier, seed):
